@@ -1,0 +1,40 @@
+//go:build verif
+
+// Contracts for property C18 (job dependency checks), deductive part: resolution of needs ids and
+// soundness of the edge returned by the cycle search. The "exactly one diagnostic iff cyclic"
+// statement over all graphs is checked by the bounded stand-in (see /verif/DESIGN.md).
+
+package actionlint
+
+//@ func (*RuleJobNeeds).VisitWorkflowPost
+//@   props C18
+//@   anchor
+//@   loop "range node.needs":
+//@     body_calls (*RuleBase).Errorf iff !rule.nodes.has(dep)
+//@     at_call (*RuleBase).Errorf: pos == node.pos
+
+// the edge returned by the depth first search is an edge of the graph that closes onto the stack
+//@ func detectCyclicNode
+//@   props C18
+//@   anchor
+//@   ensures result != nil ==> result.from != nil && result.to != nil && result.to.status == 1
+//@   ensures result != nil ==> (exists j :: 0 <= j && j < len(result.from.resolved) && result.from.resolved[j] == result.to)
+//@ func detectFirstCycle
+//@   props C18
+//@   anchor
+//@   ensures result != nil ==> result.from != nil && result.to != nil && result.to.status == 1
+//@   ensures result != nil ==> (exists j :: 0 <= j && j < len(result.from.resolved) && result.from.resolved[j] == result.to)
+
+// every edge recorded by collectCycle is an edge of the graph between active nodes
+//@ func collectCycle
+//@   props C18
+//@   anchor
+//@   ensures forall k: *jobNode :: old(edges.has(k)) && k != src ==> edges.has(k)
+//@   loop "range src.resolved":
+//@     invariant forall k: *jobNode :: old(edges.has(k)) && k != src ==> edges.has(k)
+
+// a job is registered under its lower-cased id with its lower-cased, de-duplicated needs
+//@ func (*RuleJobNeeds).VisitJobPre
+//@   props C18
+//@   anchor
+//@   ensures n.ID.Value != "" ==> rule.nodes.has(lower(n.ID.Value)) && rule.nodes[lower(n.ID.Value)].pos == n.ID.Pos
